@@ -154,13 +154,25 @@ theorem inv_claim (w w' : World) (i : Nat) (icx : Int) (ok : Bool) (hi : i < w.a
   · simp only [setAcct, sumF_set _ _ _ _ hi, getAcct]
     rw [inv.stake]; omega
 
-theorem inv_applyTx (w w' : World) (tx : Tx) (inv : Inv w) (h : applyTx w tx = some w') :
+theorem inv_applyTx0 (w w' : World) (tx : Tx) (inv : Inv w) (h : applyTx0 w tx = some w') :
     Inv w' ∧ w'.accts.length = w.accts.length := by
-  unfold applyTx at h
+  unfold applyTx0 at h
   split at h; · cases h
   rename_i hr
   cases tx with
   | none => cases h; exact ⟨inv, rfl⟩
+  | burn i fee =>
+    have hi : i < w.accts.length := by simpa [Tx.inRange] using hr
+    simp only [burnFee] at h
+    split at h; · cases h
+    split at h; · cases h
+    cases h
+    refine ⟨⟨?_, ?_⟩, by simp [setAcct]⟩
+    · simp only [setAcct, sumF_set _ _ _ _ hi, getAcct]
+      rw [inv.supply]; simp only [Account.holdings, Account.unstaking]; omega
+    · simp only [setAcct, sumF_set _ _ _ _ hi, getAcct]
+      rw [inv.stake]; omega
+  | regPRep i k fee => cases h
   | register k =>
     simp only [registerPRep] at h
     split at h; · cases h
@@ -177,6 +189,31 @@ theorem inv_applyTx (w w' : World) (tx : Tx) (inv : Inv w) (h : applyTx w tx = s
     have : i < w.accts.length ∧ j < w.accts.length := by simpa [Tx.inRange] using hr
     exact inv_transfer w w' i j v this.1 this.2 inv h
   | claim i icx ok => exact inv_claim w w' i icx ok (by simpa [Tx.inRange] using hr) inv h
+
+theorem applyTx_cases (w w' : World) (tx : Tx) (h : applyTx w tx = some w') :
+    applyTx0 w tx = some w' ∨ ∃ i k fee w1, tx = Tx.regPRep i k fee ∧
+      applyTx0 w (Tx.burn i fee) = some w1 ∧ applyTx0 w1 (Tx.register k) = some w' := by
+  cases tx with
+  | regPRep i k fee =>
+    right
+    simp only [applyTx] at h
+    cases h1 : applyTx0 w (Tx.burn i fee) with
+    | none => rw [h1] at h; cases h
+    | some w1 => rw [h1] at h; exact ⟨i, k, fee, w1, rfl, h1, by simpa using h⟩
+  | _ => left; exact h
+
+/-- a property kept by the single steps (burn and register included) is kept by every transaction -/
+theorem applyTx_lift (P : World → Prop) (Q : Tx → Prop)
+    (h0 : ∀ w w' tx, Q tx → P w → applyTx0 w tx = some w' → P w')
+    (hb : ∀ i fee, Q (Tx.burn i fee)) (hr : ∀ k, Q (Tx.register k))
+    (w w' : World) (tx : Tx) (hq : Q tx) (hw : P w) (h : applyTx w tx = some w') : P w' := by
+  rcases applyTx_cases w w' tx h with h1 | ⟨i, k, fee, w1, _, hb1, hr1⟩
+  · exact h0 w w' tx hq hw h1
+  · exact h0 w1 w' _ (hr k) (h0 w w1 _ (hb i fee) hw hb1) hr1
+
+theorem inv_applyTx (w w' : World) (tx : Tx) (inv : Inv w) (h : applyTx w tx = some w') : Inv w' :=
+  applyTx_lift Inv (fun _ => True) (fun w w' tx _ hw h => (inv_applyTx0 w w' tx hw h).1)
+    (fun _ _ => trivial) (fun _ => trivial) w w' tx trivial inv h
 
 theorem inv_fire (w : World) (inv : Inv w) : Inv { w with accts := w.accts.map (fire w.height) } := by
   constructor
@@ -208,7 +245,7 @@ theorem inv_block (w : World) (txs : List Tx) (issue : Int) (inv : Inv w) : Inv 
   unfold block
   simp only []
   exact inv_fire _ (applyTxs_preserves Inv (fun _ => True)
-    (fun w w' tx _ hw h => (inv_applyTx w w' tx hw h).1) txs _ (fun _ _ => trivial) inv0)
+    (fun w w' tx _ hw h => inv_applyTx w w' tx hw h) txs _ (fun _ _ => trivial) inv0)
 
 /-! ### delegated + bonded + unbonding ≤ stake -/
 
@@ -289,12 +326,20 @@ theorem getAcct_ok (w : World) (i : Nat) (hi : i < w.accts.length) (h : AllOk w)
   simp only [getAcct, List.getD, List.getElem?_eq_getElem hi, Option.getD_some]
   exact List.getElem_mem hi
 
-theorem allOk_applyTx (w w' : World) (tx : Tx) (ok : AllOk w) (h : applyTx w tx = some w') : AllOk w' := by
-  unfold applyTx at h
+theorem allOk_applyTx0 (w w' : World) (tx : Tx) (ok : AllOk w) (h : applyTx0 w tx = some w') : AllOk w' := by
+  unfold applyTx0 at h
   split at h; · cases h
   rename_i hr
   cases tx with
   | none => cases h; exact ok
+  | burn i fee =>
+    have hi : i < w.accts.length := by simpa [Tx.inRange] using hr
+    simp only [burnFee] at h
+    split at h; · cases h
+    split at h; · cases h
+    cases h
+    exact allOk_set w i _ ok (getAcct_ok w i hi ok)
+  | regPRep i k fee => cases h
   | register k =>
     simp only [registerPRep] at h
     split at h; · cases h
@@ -375,6 +420,10 @@ theorem allOk_applyTx (w w' : World) (tx : Tx) (ok : AllOk w) (h : applyTx w tx 
     split at h; · cases h
     cases h
     exact allOk_set w i _ ok (getAcct_ok w i hi ok)
+
+theorem allOk_applyTx (w w' : World) (tx : Tx) (ok : AllOk w) (h : applyTx w tx = some w') : AllOk w' :=
+  applyTx_lift AllOk (fun _ => True) (fun w w' tx _ hw h => allOk_applyTx0 w w' tx hw h)
+    (fun _ _ => trivial) (fun _ => trivial) w w' tx trivial ok h
 
 theorem allOk_block (w : World) (txs : List Tx) (issue : Int) (ok : AllOk w) : AllOk (block w txs issue).1 := by
   have ok0 : AllOk { w with height := w.height + 1, rest := w.rest + issue, totalSupply := w.totalSupply + issue } := ok
@@ -467,7 +516,7 @@ def stakesFrom (j : Nat) : Tx → Bool
 
 /-- what a successful transaction does to the unstake slots of account `j`, and that it leaves
     height and lock period alone -/
-theorem applyTx_unstakes (w w' : World) (tx : Tx) (j : Nat) (h : applyTx w tx = some w') :
+theorem applyTx_unstakes0 (w w' : World) (tx : Tx) (j : Nat) (h : applyTx0 w tx = some w') :
     w'.height = w.height ∧ w'.lock = w.lock ∧
     (stakesFrom j tx = false → (getAcct w' j).unstakes = (getAcct w j).unstakes) ∧
     (∀ x ∈ (getAcct w' j).unstakes, x.2 = w.height + w.lock ∨ ∃ y ∈ (getAcct w j).unstakes, x.2 = y.2) := by
@@ -478,11 +527,24 @@ theorem applyTx_unstakes (w w' : World) (tx : Tx) (j : Nat) (h : applyTx w tx = 
       (∀ x ∈ (getAcct w' j).unstakes, x.2 = w.height + w.lock ∨ ∃ y ∈ (getAcct w j).unstakes, x.2 = y.2) := by
     intro w' h1 h2 h3
     exact ⟨h1, h2, fun _ => h3, fun x hx => Or.inr ⟨x, by rw [← h3]; exact hx, rfl⟩⟩
-  unfold applyTx at h
+  unfold applyTx0 at h
   split at h; · cases h
   rename_i hr
   cases tx with
   | none => cases h; exact keep w rfl rfl rfl
+  | burn i fee =>
+    have hi : i < w.accts.length := by simpa [Tx.inRange] using hr
+    simp only [burnFee] at h
+    split at h; · cases h
+    split at h; · cases h
+    cases h
+    refine keep _ rfl rfl ?_
+    show (getAcct (setAcct w i _) j).unstakes = _
+    rw [getAcct_setAcct w i j _ hi]
+    by_cases hij : i = j
+    · subst hij; simp
+    · simp [hij]
+  | regPRep i k fee => cases h
   | register k =>
     simp only [registerPRep] at h
     split at h; · cases h
@@ -578,6 +640,17 @@ theorem applyTx_unstakes (w w' : World) (tx : Tx) (j : Nat) (h : applyTx w tx = 
     by_cases hij : i = j
     · subst hij; simp
     · simp [hij]
+
+theorem applyTx_unstakes (w w' : World) (tx : Tx) (j : Nat) (h : applyTx w tx = some w') :
+    w'.height = w.height ∧ w'.lock = w.lock ∧
+    (stakesFrom j tx = false → (getAcct w' j).unstakes = (getAcct w j).unstakes) ∧
+    (∀ x ∈ (getAcct w' j).unstakes, x.2 = w.height + w.lock ∨ ∃ y ∈ (getAcct w j).unstakes, x.2 = y.2) := by
+  rcases applyTx_cases w w' tx h with h1 | ⟨i, k, fee, w1, _, hb1, hr1⟩
+  · exact applyTx_unstakes0 w w' tx j h1
+  · obtain ⟨a1, a2, a3, _⟩ := applyTx_unstakes0 w w1 _ j hb1
+    obtain ⟨b1, b2, b3, _⟩ := applyTx_unstakes0 w1 w' _ j hr1
+    have e : (getAcct w' j).unstakes = (getAcct w j).unstakes := by rw [b3 rfl, a3 rfl]
+    exact ⟨by rw [b1, a1], by rw [b2, a2], fun _ => e, fun x hx => Or.inr ⟨x, by rw [← e]; exact hx, rfl⟩⟩
 
 /-- inside a block: nothing expires before the current height -/
 def MidOk (w : World) : Prop := 0 ≤ w.lock ∧ ∀ j, ∀ u ∈ (getAcct w j).unstakes, w.height ≤ u.2
@@ -895,13 +968,21 @@ theorem totals_same (w w' : World) (i : Nat) (a' : Account) (hi : i < w.accts.le
     · exact T.btgt a hm' b hb'
     · rw [hb] at hb'; exact T.btgt _ hm b hb'
 
-theorem totals_applyTx (w w' : World) (tx : Tx) (hq : TxWF tx) (T : Totals w) (h : applyTx w tx = some w') :
+theorem totals_applyTx0 (w w' : World) (tx : Tx) (hq : TxWF tx) (T : Totals w) (h : applyTx0 w tx = some w') :
     Totals w' := by
-  unfold applyTx at h
+  unfold applyTx0 at h
   split at h; · cases h
   rename_i hr
   cases tx with
   | none => cases h; exact T
+  | burn i fee =>
+    have hi : i < w.accts.length := by simpa [Tx.inRange] using hr
+    simp only [burnFee] at h
+    split at h; · cases h
+    split at h; · cases h
+    cases h
+    exact totals_same w _ i _ hi T rfl rfl rfl rfl rfl rfl rfl rfl rfl
+  | regPRep i k fee => cases h
   | register k =>
     simp only [registerPRep] at h
     split at h; · cases h
@@ -1066,6 +1147,11 @@ theorem totals_applyTx (w w' : World) (tx : Tx) (hq : TxWF tx) (T : Totals w) (h
       · exact T.btgt a hm' b hb
       · have hall : bs.all (fun b => w.registered b.1) = true := by simpa using hregd
         exact List.all_eq_true.mp hall b hb
+
+theorem totals_applyTx (w w' : World) (tx : Tx) (hq : TxWF tx) (T : Totals w) (h : applyTx w tx = some w') :
+    Totals w' :=
+  applyTx_lift Totals TxWF (fun w w' tx q hw h => totals_applyTx0 w w' tx q hw h)
+    (fun _ _ => trivial) (fun _ => trivial) w w' tx hq T h
 
 theorem totals_fire (w : World) (h : Int) (T : Totals w) : Totals { w with accts := w.accts.map (fire h) } := by
   constructor
